@@ -22,8 +22,8 @@
    confs is computed in uint64 (balance) and truncated to uint32 (coin listing) exactly as the
    code does: syncHeight - height + 1 with wrap-around.
 
-   [snap] is the repaired semantics: every read of one View is served by the store current at
-   the View's first read (a snapshot per read transaction). *)
+   [snap] is the repaired semantics: every read of one View is served by the store current when
+   the View began (a snapshot per read transaction, taken by BeginReadTx). *)
 From Coq Require Import List ZArith NArith Bool.
 Import ListNotations.
 Open Scope Z_scope.
@@ -37,7 +37,9 @@ Definition u32 (z : Z) : Z := z mod two32.
 Definition empty_store : wstate := {| credits := []; synced := [] |}.
 Definition store_at (ss : list wstate) (j : nat) : wstate := nth j ss (last ss empty_store).
 
-(* schedule: commit index of the k-th read; beyond the list the last index stays in force *)
+(* schedule: element 0 = the commit index at which the read transaction begins (BeginReadTx),
+   element k+1 = the commit index serving the k-th read; beyond the list the last index stays in
+   force *)
 Definition idx (sc : list nat) (k : nat) : nat := nth k sc (last sc 0%nat).
 
 Fixpoint monotone (sc : list nat) : bool :=
@@ -48,7 +50,7 @@ Fixpoint monotone (sc : list nat) : bool :=
 
 (* the store that serves read k *)
 Definition serving (snap : bool) (ss : list wstate) (sc : list nat) (k : nat) : wstate :=
-  store_at ss (if snap then idx sc 0 else idx sc k).
+  store_at ss (if snap then idx sc 0 else idx sc (S k)).
 
 (* a row of the unspent bucket: key wallet:tx:vout, value height:blockhash *)
 Record urow := { r_op : N * N; r_height : Z; r_bid : N }.
